@@ -19,7 +19,7 @@ from vt.props import common as cm
 PID = "C10"
 RULE = (
     "Hypothesis-generated middleware stacks of 0-3 synthesised TaskiqMiddleware subclasses, each overriding any subset "
-    "of the six hooks (each defined on the registered class itself or inherited from an intermediate middleware class), every hook sync or async, pre_send / pre_execute optionally REPLACING the message by a stamped "
+    "of the six hooks (each defined on the registered class itself or inherited from an intermediate middleware class), every hook sync, async or a plain function returning a coroutine; optionally the same instance registered twice, or middlewares that compare equal to each other, pre_send / pre_execute optionally REPLACING the message by a stamped "
     "copy (so that 'each sees its predecessor's message' is observable in data); 1-4 messages sent through the real "
     "AsyncKicker.kiq (sequentially or concurrently; in a third of the cases through a kicker built for ANOTHER broker with its own middleware and redirected with with_broker()), kick() failing for a generated subset, then delivered to the real "
     "Receiver.listen() with generated arrival instants (concurrent executions), outcomes return / raise / BaseException / "
@@ -39,6 +39,9 @@ def scenario() -> Any:
 
     def fin(d: Dict[str, Any]) -> Dict[str, Any]:
         d["msgs"] = cm.sort_msgs(d["msgs"])
+        if d.pop("value_eq"):
+            for m in d["mws"]:
+                m["_value_eq"] = True       # distinct middlewares that compare equal (value semantics)
         d["fail_saves"] = sorted(d["fail_saves"])
         d["fail_kicks"] = sorted(k for k in d["fail_kicks"] if k < len(d["msgs"]))
         return d
@@ -53,6 +56,9 @@ def scenario() -> Any:
         "fail_kicks": st.sets(st.integers(0, 3), max_size=2),
         "concurrent_send": st.booleans(),
         "redirect": st.sampled_from([False, False, True]),
+        "dup_mw": st.one_of(st.none(), st.none(), st.integers(0, 2)),
+        "register_one_by_one": st.booleans(),
+        "value_eq": st.sampled_from([False, False, True]),
         "ack_type": st.sampled_from(["when_received", "when_executed", "when_saved"]),
     }).map(fin)
 
@@ -79,8 +85,16 @@ def run_case(sc: Dict[str, Any]) -> Outcome:
     b.result_backend = rb
     wh.register_timing_tasks(b, tr, sc)
     built = wh.build_middlewares(mws, tr)
+    dup = sc.get("dup_mw")
+    order = list(range(len(built)))
+    if dup is not None and built:
+        order.append(dup % len(built))      # the same middleware instance registered a second time
     if built:
-        b.add_middlewares(*built)
+        if sc.get("register_one_by_one"):
+            for k in order:
+                b.add_middlewares(built[k])
+        else:
+            b.add_middlewares(*[built[k] for k in order])
     other = wh.ScriptedBroker(tr)
     decoy_spec = [{h: {"async": False, "stamp": True} for h in ("pre_send", "post_send")}]
     for mw in wh.build_middlewares(decoy_spec, tr, base=100):    # its events carry mw=100: never expected
@@ -158,14 +172,20 @@ def run_case(sc: Dict[str, Any]) -> Outcome:
     order = res.get("order", [])
     isent = next((n for n, e in enumerate(trace) if e[1] == "sent_all"), len(trace))
 
-    def overriders(h: str) -> List[int]:
-        return [mi for mi, m in enumerate(mws) if h in m]
+    reg_order = list(range(len(mws)))
+    if sc.get("dup_mw") is not None and mws:
+        reg_order.append(sc["dup_mw"] % len(mws))
 
-    def stamps(h: str, upto: int) -> str:
-        return "".join(f"{h[4]}{mi}" for mi in overriders(h) if mi < upto and mws[mi][h].get("stamp"))
+    def overriders(h: str) -> List[int]:
+        return [mi for mi in reg_order if h in mws[mi]]
+
+    def stamps(h: str, upto_pos: int) -> str:
+        """stamps added by the hooks registered before position `upto_pos` in the overrider list"""
+        ov = overriders(h)
+        return "".join(f"{h[4]}{mi}" for mi in ov[:upto_pos] if mws[mi][h].get("stamp"))
 
     nontriv = False
-    total_hooks = sum(len(m) for m in mws)
+    total_hooks = sum(len([h for h in m if not h.startswith("_")]) for m in mws)
     for i, sp in enumerate(specs):
         # ---- send side
         got_send = [(e[1], e[3].get("mw")) for e in trace[:isent] if e[2] == i and e[1] in ("pre_send", "kick", "post_send")]
@@ -181,9 +201,12 @@ def run_case(sc: Dict[str, Any]) -> Outcome:
             out.add("C10.a", f"message {i}: kick failed but the caller saw {send_result.get(i)!r}, expected SendTaskError")
         if not should_fail and not kick_ok:
             out.add("C10.a", f"message {i}: kick succeeded but kiq raised {send_result.get(i)!r}")
+        pos_ = 0
         for e in trace[:isent]:
-            if e[2] == i and e[1] == "pre_send" and e[3]["seen"] != stamps("pre_send", e[3]["mw"]):
-                out.add("C10.a", f"message {i}: pre_send of middleware {e[3]['mw']} saw stamps {e[3]['seen']!r}, expected its predecessors' {stamps('pre_send', e[3]['mw'])!r}")
+            if e[2] == i and e[1] == "pre_send":
+                if e[3]["seen"] != stamps("pre_send", pos_):
+                    out.add("C10.a", f"message {i}: pre_send #{pos_} (middleware {e[3]['mw']}) saw stamps {e[3]['seen']!r}, expected its predecessors' {stamps('pre_send', pos_)!r}")
+                pos_ += 1
             if e[2] == i and e[1] == "post_send" and e[3]["seen"] != stamps("pre_send", 99):
                 out.add("C10.a", f"message {i}: post_send of middleware {e[3]['mw']} saw stamps {e[3]['seen']!r}, expected {stamps('pre_send', 99)!r}")
         if should_fail:
@@ -214,20 +237,23 @@ def run_case(sc: Dict[str, Any]) -> Outcome:
             out.add("C10.b", f"message {i} (outcome {sp['out']}, timed_out={timed_out}, save_fails={save_fails}): worker-side "
                              f"sequence {got} != documented {exp}")
         final = stamps("pre_send", 99)
+        pos_ = 0
         for e in trace[isent:]:
             if e[2] == i and e[1] == "pre_execute":
-                want = final + stamps("pre_execute", e[3]["mw"])
+                want = final + stamps("pre_execute", pos_)
                 if e[3]["seen"] != want:
-                    out.add("C10.b", f"message {i}: pre_execute of middleware {e[3]['mw']} saw stamps {e[3]['seen']!r}, expected {want!r}")
+                    out.add("C10.b", f"message {i}: pre_execute #{pos_} (middleware {e[3]['mw']}) saw stamps {e[3]['seen']!r}, expected {want!r}")
+                pos_ += 1
         if (raised or save_fails) and len(mws) >= 2 and total_hooks >= 3:
             nontriv = True
     # the script index used by take/ack events differs from the message index when kicks failed: not used here
     out.nontrivial = nontriv
     out.classes = [f"mws={len(mws)}"] + [c for c, f in (("failing_kick", bool(sc["fail_kicks"])), ("failing_save", bool(sc["fail_saves"])),
-                                                       ("async_hook", any(h.get("async") for m in mws for h in m.values())),
-                                                       ("stamping_hook", any(h.get("stamp") for m in mws for h in m.values())),
-                                                       ("inherited_hook", any(h.get("inherited") for m in mws for h in m.values())),
-                                                       ("concurrent_send", sc["concurrent_send"]), ("redirected_kicker", bool(sc.get("redirect")))) if f]
+                                                       ("async_hook", any(h.get("async") for m in mws for k_, h in m.items() if not k_.startswith("_"))),
+                                                       ("stamping_hook", any(h.get("stamp") for m in mws for k_, h in m.items() if not k_.startswith("_"))),
+                                                       ("inherited_hook", any(h.get("inherited") for m in mws for k_, h in m.items() if not k_.startswith("_"))),
+                                                       ("concurrent_send", sc["concurrent_send"]), ("redirected_kicker", bool(sc.get("redirect"))), ("same_instance_twice", sc.get("dup_mw") is not None and bool(mws)),
+                                                       ("value_equal_middlewares", any(m.get("_value_eq") for m in mws))) if f]
     out.trace = wh.brief_trace(trace, 70)
     return out
 
